@@ -177,7 +177,27 @@ fn fixtures(env: &mut Env) -> &'static Fixtures {
     })
 }
 
-const PRIORS: [&str; 14] = ["other-patch-version-other-index", "other-build-suffix-other-index", "absent", "current", "other-version", "other-data", "meta-missing", "meta-empty", "meta-braces", "meta-array", "meta-garbage", "index-missing", "index-without-tantivy-meta", "other-hash"];
+const PRIORS: [&str; 16] = [
+    "other-patch-version-other-index",
+    "other-build-suffix-other-index",
+    "absent",
+    "current",
+    "other-version",
+    "other-data",
+    "meta-missing",
+    "meta-empty",
+    "meta-braces",
+    "meta-array",
+    "meta-garbage",
+    "index-missing",
+    "index-without-tantivy-meta",
+    "other-hash",
+    // garbage that is not text at all, and a valid record followed by binary garbage (a directory
+    // in the file's place was tried and dropped: the unchanged tool fails on it with EISDIR, but
+    // the statement's list of states does not include it)
+    "meta-binary",
+    "meta-valid-then-binary",
+];
 
 /// meta.json contents that are well-formed JSON of the wrong shape or type (`@V@`/`@H@` stand for
 /// the current version / hash). None of them is a valid record of a current index except the
@@ -294,6 +314,12 @@ fn make_prior(fx: &Fixtures, prior: &str, data: &Path) {
                 "meta-braces" => std::fs::write(&meta, "{}").unwrap(),
                 "meta-array" => std::fs::write(&meta, "[]").unwrap(),
                 "meta-garbage" => std::fs::write(&meta, "\u{0}\u{1}garbage{{").unwrap(),
+                "meta-binary" => std::fs::write(&meta, [0xffu8, 0xfe, 0x00, 0x80, 0xc3, 0x28, 0xf0, 0x9f, 0x7b, 0x22]).unwrap(),
+                "meta-valid-then-binary" => {
+                    let mut b = fx.current_meta.clone().into_bytes();
+                    b.extend_from_slice(&[0x0a, 0xff, 0xfe, 0x80]);
+                    std::fs::write(&meta, b).unwrap()
+                }
                 "index-missing" => std::fs::remove_dir_all(data.join("facts/index")).unwrap(),
                 "index-without-tantivy-meta" => std::fs::remove_file(data.join("facts/index/meta.json")).unwrap(),
                 x if x.starts_with("meta-shape-") => {
@@ -348,7 +374,7 @@ impl Prop for C15 {
         120
     }
     fn rule(&self) -> String {
-        "prior directory states: absent; complete and current; written by another version (a foreign major version; the next patch version or a build suffix over an index with other content and the current data hash); written by another build with its own index layout (same field names, the name field under the default word tokenizer) under seven version strings close to the current one (build metadata, zero-padded, blank-padded, extra component, v-prefix, pre-release tag, another release) x {current data hash, another hash}; written for other data (built by the real code through the asset seam); other hash; meta.json missing / empty / {} / [] / garbage / every proper prefix of the valid bytes / 18 well-formed JSON documents of the wrong shape or type (null, a number, a list, `version` a number / list / object, a numeric or null hash, a missing or duplicated key, keys in another case, extra fields, other whitespace and key order); index directory missing under a current meta.json; index directory without tantivy's own meta.json. Each prior state x two crash-free starts (family start). Crash enumeration (family crash): prior state x every crash point N = 1..N_max of the real start under the LD_PRELOAD shim (process SIGKILLed before its N-th file-system mutation; quick: absent, other-data, index-missing and index-without-tantivy-meta priors, every point; thorough: eight priors, every point, each write also torn after half and after all-but-one byte), then: meta.json current => index complete (opened independently with tantivy), then two crash-free starts that must answer the probe set exactly like Db::in_memory(). Thorough adds two-crash histories: from the absent prior every pair (n1, n2) with n1 <= 130 and n2 <= 140 (a start performs about 110-125 mutations), from the other-data prior every second n1 and n2; after the second kill the same two oracles apply. Non-trivial = the start performed at least one mutation before it was killed / a prior state other than `current`; distinct = distinct (prior, N, torn)".into()
+        "prior directory states: absent; complete and current; written by another version (a foreign major version; the next patch version or a build suffix over an index with other content and the current data hash); written by another build with its own index layout (same field names, the name field under the default word tokenizer) under seven version strings close to the current one (build metadata, zero-padded, blank-padded, extra component, v-prefix, pre-release tag, another release) x {current data hash, another hash}; written for other data (built by the real code through the asset seam); other hash; meta.json missing / empty / {} / [] / garbage / bytes that are not UTF-8 / a valid record followed by such bytes / every proper prefix of the valid bytes / 18 well-formed JSON documents of the wrong shape or type (null, a number, a list, `version` a number / list / object, a numeric or null hash, a missing or duplicated key, keys in another case, extra fields, other whitespace and key order); index directory missing under a current meta.json; index directory without tantivy's own meta.json. Each prior state x two crash-free starts (family start). Crash enumeration (family crash): prior state x every crash point N = 1..N_max of the real start under the LD_PRELOAD shim (process SIGKILLed before its N-th file-system mutation; quick: absent, other-data, index-missing and index-without-tantivy-meta priors, every point; thorough: eight priors, every point, each write also torn after half and after all-but-one byte), then: meta.json current => index complete (opened independently with tantivy), then two crash-free starts that must answer the probe set exactly like Db::in_memory(). Thorough adds two-crash histories: from the absent prior every pair (n1, n2) with n1 <= 130 and n2 <= 140 (a start performs about 110-125 mutations), from the other-data prior every second n1 and n2; after the second kill the same two oracles apply. Non-trivial = the start performed at least one mutation before it was killed / a prior state other than `current`; distinct = distinct (prior, N, torn)".into()
     }
     fn assumptions(&self) -> Vec<String> {
         vec![
